@@ -574,6 +574,9 @@ func runScenario(t *testing.T, out *vh.Out, s scenario) {
 			d.proto = map[string]string{"gossipsub": "v11", "floodsub": "flood", "randomsub": "random"}[router]
 		}
 		backoffMs, fixed := 10000, false
+		if connector == "custom" && disc {
+			backoffMs, fixed = 3000, true
+		}
 		cfg := world.Config{Router: router, Hosts: 2 + npeers}
 		cfg.PreNUT = func(w *world.World) {
 			d.w = w
@@ -591,7 +594,6 @@ func runScenario(t *testing.T, out *vh.Out, s scenario) {
 				dopts = append(dopts, pubsub.WithDiscoveryOpts(discovery.Limit(optLimit), discovery.TTL(optTTL)))
 			}
 			if connector == "custom" {
-				backoffMs, fixed = 3000, true
 				dopts = append(dopts, pubsub.WithDiscoverConnector(func(h host.Host) (*discimpl.BackoffConnector, error) {
 					d.log(M{"k": "factory", "t": hnet.NowMs(), "self": h.ID() == d.self})
 					return discimpl.NewBackoffConnector(h, 16, time.Minute, discimpl.NewFixedBackoff(3*time.Second))
